@@ -120,6 +120,31 @@ def run(ctx):
             text = sx.unS(c.split(' ')[4]).decode('utf-8', 'replace')
             ctx.violation('schema resolution / validation did not return a verdict: %s\nSCHEMA:\n%s' % (res[:300], text[:600]), dict(kind='case', case=c, go=res))
     ctx.extra['result_histogram'] = hist
+    # correspondence: Resolve (registration, shadowing, Kahn cycle check, reference resolution, action membership) = Impl/SchemaResolve.v
+    texts = sorted({c.split(' ')[4] for c in cases})
+    rcases = ['(case s%d schemaresolve %s)' % (i, t) for i, t in enumerate(texts)]
+    gor = lib.run_go(rcases, 'schemaresolve', ctx.workdir, timeout_ms=20000)
+    mcases, gverdict = [], {}
+    for c in rcases:
+        res = gor.get(lib.case_id(c), '(missing)')
+        if res.startswith('((ast '):
+            t = sx.parse(res)
+            mcases.append('(case %s schemaresolve %s)' % (lib.case_id(c), sx.dump(t[0][1])))
+            gverdict[lib.case_id(c)] = lib.canon_str(sx.dump(t[1][1]))
+    mor = lib.run_model(mcases, 'schemaresolve', ctx.workdir)
+    mism = nok = 0
+    for c in mcases:
+        cid = lib.case_id(c)
+        m_ = lib.canon_str(mor.get(cid, '(missing)'))
+        nok += gverdict[cid].startswith('(ok')
+        if m_ != gverdict[cid]:
+            mism += 1
+            if mism <= 5:
+                ctx.violation('schema resolution: Go and the Coq model (Impl/SchemaResolve.v) disagree: go=%s model=%s\nAST: %s' % (gverdict[cid][:300], m_[:300], c[:800]),
+                              dict(kind='case', case=c, go=gverdict[cid], model=m_))
+    ctx.extra['resolve_correspondence'] = dict(schemas=len(mcases), resolved=nok)
+    ctx.oblige('correspondence: resolved.Resolve verdict and resolved types = Impl/SchemaResolve.resolve_schema on %d parsed schemas (%d resolve)' % (len(mcases), nok),
+               'correspondence', mism == 0)
     ctx.oblige('runtime oracle: resolution and validation return a verdict on %d schemas (no panic, crash, hang)' % len(cases), 'oracle', bad == 0)
     for c in cases[:2]:
         ctx.sample(dict(schema=sx.unS(c.split(' ')[4]).decode('utf-8', 'replace')[:300], go=go.get(lib.case_id(c))))
